@@ -46,6 +46,12 @@ for d in sorted(glob.glob('/tmp/mut-C*/[0-9]*')) + sorted(glob.glob('/tmp/mut2-C
         'checks': {c: {'verdict': caught[c], 'first_violations': v['first'][:3], 'summary': v['summary'][:1], 'wall_s': v['wall_s']} for c, v in e.get('checks', {}).items()},
         'history': hist,
     }
+    oe = os.path.join(d, 'old_eval.json')
+    if os.path.exists(oe):
+        o = json.load(open(oe))
+        meta['own_check_as_it_stood_before_this_round'] = {'verif_commit': '68c8575', 'verdict': 'VIOLATION' if o['exit'] == 1 else ('INCONCLUSIVE' if o['exit'] == 2 else 'missed')}
+    elif prev.get('own_check_as_it_stood_before_this_round'):
+        meta['own_check_as_it_stood_before_this_round'] = prev['own_check_as_it_stood_before_this_round']
     json.dump(meta, open(os.path.join(out, 'meta.json'), 'w'), indent=1)
     rows.append((name, m.get('summary', '')[:160].replace('\n', ' '), ', '.join('%s: %s' % kv for kv in caught.items())))
 # the index lists everything under seeded/, also the changes collected in earlier sessions whose /tmp directories are gone
